@@ -30,7 +30,7 @@ var c07 = core.Register(&core.Prop{
 	Shards: func(tier string) int { return pickTier(tier, 8, 16) },
 	Floors: func(c map[string]int64, tier string) []string {
 		var out []string
-		for _, k := range []string{"store_cases", "second_evaluation_cases", "assignments_checked", "log_entries_checked", "forbidden_target_cases", "binding_cases", "frame_checks", "frame_checks_general", "error_runs_frame_checked", "callee_not_a_function_cases", "calls_through_locals", "frame_checks_call_templates"} {
+		for _, k := range []string{"store_cases", "second_evaluation_cases", "assignments_checked", "log_entries_checked", "forbidden_target_cases", "binding_cases", "frame_checks", "frame_checks_general", "error_runs_frame_checked", "callee_not_a_function_cases", "calls_through_locals", "frame_checks_call_templates", "host_mutation_cases"} {
 			if c[k] == 0 {
 				out = append(out, "coverage floor: no "+k)
 			}
@@ -262,7 +262,8 @@ type ForbiddenCase struct {
 }
 
 var c07Forbidden = core.Mon(c07, "forbidden-target", func(w *core.W, c *ForbiddenCase) {
-	data := map[string]interface{}{"a": 1, "m": map[string]interface{}{"b": 2}, "$a": map[string]interface{}{"b": 3}, "f": func() (int, error) { return 1, nil }}
+	data := map[string]interface{}{"a": 1, "m": map[string]interface{}{"b": 2}, "$a": map[string]interface{}{"b": 3}, "f": func() (int, error) { return 1, nil },
+		"a$": 5, "a$b": 6, "_$x": 7, "price$": 10}
 	snap := func() string {
 		s := frameSnapshot(data)
 		if !c.AssignsSA {
@@ -387,7 +388,75 @@ var c07Frame = core.Mon(c07, "frame", func(w *core.W, c *EvalCase) {
 	}
 })
 
-var forbiddenTargets = []string{"a", "a.b", "m.b", "$a.b", "($a)", "1", "f()", "this", "true", "null", "[$a]", "$a + 1", "'$a'", "this.$a", "-$a", "!$a", "typeof $a", "m!.b", "(a)", "($a ? $b : $c)", "a + $a", "$a()", "this.a", "ctx"}
+// HostMutCase: a host function that changes the slice or map it was handed (sorts it, deletes from it). What the
+// evaluator hands over for a parameter is the callee's own copy: the caller's data and the formula's locals stay as
+// they were.
+type HostMutCase struct {
+	Src string `json:"src"`
+}
+
+var c07HostMut = core.Mon(c07, "host-mutates-its-argument", func(w *core.W, c *HostMutCase) {
+	build := func(mutating bool) map[string]interface{} {
+		return map[string]interface{}{
+			"xs": []interface{}{3, 1, 2}, "ss": []string{"c", "a", "b"}, "mm": map[string]interface{}{"x": 1, "y": 2}, "nest": map[string]interface{}{"l": []interface{}{9, 8}},
+			"scramble": func(xs []interface{}) (int, error) {
+				if mutating {
+					for i, j := 0, len(xs)-1; i < j; i, j = i+1, j-1 {
+						xs[i], xs[j] = xs[j], xs[i]
+					}
+					if len(xs) > 0 {
+						xs[0] = "scrambled"
+					}
+				}
+				return len(xs), nil
+			},
+			"scrambles": func(xs []string) (int, error) {
+				if mutating && len(xs) > 0 {
+					xs[0] = "scrambled"
+				}
+				return len(xs), nil
+			},
+			"prune": func(m map[string]interface{}) (int, error) {
+				n := len(m)
+				if mutating {
+					for k := range m {
+						delete(m, k)
+					}
+					m["pruned"] = true
+				}
+				return n, nil
+			},
+			"variadic": func(xs ...interface{}) (int, error) {
+				if mutating && len(xs) > 0 {
+					xs[0] = "scrambled"
+				}
+				return len(xs), nil
+			},
+		}
+	}
+	w.Eval(2)
+	w.Count("host_mutation_cases")
+	w.Nontrivial("hostmut:" + c.Src)
+	quiet, e1, p1, pv1 := resolveIn(build(false), c.Src)
+	data := build(true)
+	before := frameSnapshot(data)
+	loud, e2, p2, pv2 := resolveIn(data, c.Src)
+	if o1, o2 := outcome(quiet, e1, p1, pv1), outcome(loud, e2, p2, pv2); o1 != o2 {
+		w.Violation("host-mutates-its-argument", "C07/host-function-reached-the-original", c, clipS(o1, 300), clipS(o2, 300),
+			"the same formula with host functions that modify their slice/map parameters gives another result: they were handed the caller's (or the local's) own container: "+c.Src)
+		return
+	}
+	if after := frameSnapshot(data); after != before {
+		w.Violation("host-mutates-its-argument", "C07/caller-data-modified", c, "unchanged", firstDiff(before, after), "a host function modifying its parameter changed the caller's data: "+c.Src)
+	}
+})
+
+var hostMutFormulas = []string{"scramble(xs), xs", "[scramble(xs), xs, scramble(xs), xs]", "$a = [3, 1, 2], scramble($a), $a", "$a = xs, scramble($a), [$a, xs]", "prune(mm), mm", "prune(this), [xs, mm]",
+	"$m = mm, prune($m), [$m, mm]", "prune(nest), nest.l", "scramble(nest.l), nest", "scrambles(ss), ss", "scrambles(['q', 'r']), ss", "variadic(xs...), xs", "$a = [1, 2], variadic($a...), $a", "variadic(1, 2), xs",
+	"scramble([xs, xs]), xs", "$a = [5, 6], $b = $a, scramble($b), [$a, $b]", "scramble(xs) + scramble(xs), xs"}
+
+var forbiddenTargets = []string{"a", "a.b", "m.b", "$a.b", "($a)", "1", "f()", "this", "true", "null", "[$a]", "$a + 1", "'$a'", "this.$a", "-$a", "!$a", "typeof $a", "m!.b", "(a)", "($a ? $b : $c)", "a + $a", "$a()", "this.a", "ctx",
+	"a$", "a$b", "_$x", "price$", "new$name", "x$$", "_$", "a$.b"}
 
 func init() { c07.Run = runC07 }
 
@@ -456,6 +525,11 @@ func runC07(w *core.W) {
 			if w.Mine(i*8 + j) {
 				c07Forbidden(w, &ForbiddenCase{Src: fmt.Sprintf(tmpl, t), AssignsSA: strings.Contains(tmpl, "$a =")})
 			}
+		}
+	}
+	for i, f := range hostMutFormulas {
+		if w.Mine(i) {
+			c07HostMut(w, &HostMutCase{Src: f})
 		}
 	}
 	// exactness of bindings
